@@ -154,6 +154,8 @@ def o_shift(c):
     if not cc.is_odd(a) and cc.roundtrips(a):
         if pt.shift(a.serialize(), k) != r.serialize():
             return 'peptacular.shift(str) differs from the annotation method'
+        if not wrapping(a, k) and not cc.roundtrips(r):
+            return f'shifted annotation (no interval wraps) does not re-parse: {r.serialize()!r}'
     return None
 
 
@@ -207,6 +209,8 @@ def o_shuffle(c):
     if not cc.is_odd(a) and cc.roundtrips(a):
         if pt.shuffle(a.serialize(), seed) != r.serialize():
             return 'peptacular.shuffle(str) differs from the annotation method'
+        if not cc.roundtrips(r):
+            return f'shuffled annotation does not re-parse: {r.serialize()!r}'
     return None
 
 
@@ -230,6 +234,8 @@ def o_sort(c):
     if not cc.is_odd(a) and cc.roundtrips(a):
         if pt.sort(a.serialize()) != r.serialize():
             return 'peptacular.sort(str) differs from the annotation method'
+        if not cc.roundtrips(r):
+            return f'sorted annotation does not re-parse: {r.serialize()!r}'
     return None
 
 
